@@ -1,8 +1,22 @@
 """C17 — transfers survive a restart: correspondence K_C17 + monitor (see DESIGN.md, C17).
 
 Real code under test: `TransferShelveCache` on a temp directory, `Transfer.__getstate__/__setstate__`,
-`TransferManager.add / remove / store_data / load_data / _get_queued_transfers` with stub collaborators.
+`TransferManager.add / remove / store_data / load_data / stop / _get_queued_transfers` with stub collaborators.
 Model: lean/AioslskVerif/Model/Cache.lean through Driver/C17.lean.
+
+Three families of cases:
+  * op lists with the cache written at quiescent points (add / mut / rm / store / legacy / restart / sched);
+  * *phased* op lists (model-backed): `add()` / `remove()` run as their own tasks and are suspended in their listeners
+    (`TransferAddedEvent`, the state listeners of the abort transition, `TransferRemovedEvent`); attribute changes,
+    further operations, cache writes (`store_data()` / `stop()` + `store_data()`) and the end of the process happen
+    while they are suspended;
+  * *sweeps* (monitor only — loop-iteration granularity is runtime glue the model does not express): operations and
+    real state transitions run concurrently with listeners that write the cache themselves / suspend, cancelled
+    tasks that take several iterations to die, a deferred executor, and a periodic writer that fires at every loop
+    iteration; every write is followed by a crash (copy of the data directory loaded by a fresh manager).
+The monitor compares what a fresh manager loads with what the user could observe at the time of the last write:
+the public list + attributes at that instant, and the *ghost* sets "addition reported" / "removal reported"
+(events delivered / calls returned), which the harness keeps itself from the real events.
 """
 from __future__ import annotations
 
@@ -33,6 +47,7 @@ ST_QUEUED, ST_INIT, ST_INCOMPLETE, ST_DL, ST_UL, ST_COMPLETE, ST_FAILED, ST_ABOR
 ALL_STATES = [0, 1, 3, 4, 5, 6, 7, 8, 9, 10]
 FIELDS = ['u', 'p', 'd', 'st', 'lp', 'fs', 'bt', 'fr', 'ar', 'rq', 'piq', 'qa', 'lqa', 'ura', 'lura', 'stt', 'ct',
           'off', 'tk']
+NOW = 1000                          # SimLoop's start instant; time.time() is the virtual clock, which never advances here
 
 
 # --------------------------------------------------------------------------------------------
@@ -73,14 +88,22 @@ def _model_lines(case: dict) -> list[str]:
         elif k == 'mut':
             out.append('mut ' + _spec_line(op[1]))
         elif k == 'rm':
-            out.append(f'rm {_xs(op[1])} {_xs(op[2])} {op[3]}')
+            out.append(f'rm {_xs(op[1])} {_xs(op[2])} {op[3]} {NOW}')
+        elif k == 'addc':
+            out.append('addc ' + _spec_line(op[1]))
+        elif k == 'addr':
+            out.append(f'addr {_xs(op[1])} {_xs(op[2])} {op[3]}')
+        elif k == 'rmc':
+            out.append(f'rmc {_xs(op[1])} {_xs(op[2])} {op[3]} {NOW}')
+        elif k == 'rms':
+            out.append(f'rms {_xs(op[1])} {_xs(op[2])} {op[3]}')
         elif k == 'legacy':
             _, u, p, d, a, o, kk, s = op
             out.append(f'legacy {_xs(u)} {_xs(p)} {d} {int(a)} {int(o)} {int(kk)} {int(s)}')
         elif k == 'sched':
             out.append('sched ' + ','.join(_xs(u) for u in op[1]))
         elif k in ('new', 'store', 'restart'):
-            out.append(k)
+            out.append(k)             # ['store', 'stop'] = stop() + store_data(): the same write for the model
         else:
             raise ValueError(f'unknown op {op!r}')
     return out
@@ -89,10 +112,15 @@ def _model_lines(case: dict) -> list[str]:
 def _canon(line: str, model_side: bool) -> str:
     """Order-free canonical form of one observation line (database / list orders carry no meaning)."""
     if line.startswith('keys'):
-        ks = [k for k in line[4:].strip().split(',') if k]
+        body, _, rest = line[4:].strip().partition(' there=')
+        if not _ and body.startswith('there='):
+            body, rest = '', body[len('there='):]
+        there, _, gone = rest.partition(' gone=')
+        ks = [k for k in body.strip().split(',') if k]
         if model_side:
             ks = [hashlib.sha256(bytes.fromhex(k)).hexdigest() for k in ks]
-        return 'keys ' + ','.join(sorted(ks))
+        return ('keys ' + ','.join(sorted(ks)) + ' there=' + ';'.join(sorted(x for x in there.strip().split(';') if x)) +
+                ' gone=' + ';'.join(sorted(x for x in gone.strip().split(';') if x)))
     if line.startswith('loaded '):
         parts = line.split(' ', 3)
         body = parts[3] if len(parts) > 3 else ''
@@ -145,13 +173,128 @@ class _StubUsers:
         from aioslsk.user.model import User, UserStatus
         return User(name=username, status=UserStatus.OFFLINE if username in self.offline else UserStatus.UNKNOWN)
 
+    # tracking requests go to the server in the real UserManager: they suspend the caller, nothing else
+    async def track_user(self, username, flag=None):
+        await asyncio.sleep(0)
 
-class _Counter:
+    async def untrack_user(self, username, flag=None):
+        await asyncio.sleep(0)
+
+
+def _tid(t) -> tuple:
+    return (t.username, t.remote_path, t.direction.value)
+
+
+def _sid(ident) -> str:
+    return f'{_xs(ident[0])},{_xs(ident[1])},{ident[2]}'
+
+
+class _Ghost:
+    """What the user has been told, kept from the REAL events and call returns (no model involved).
+    `there`: addition reported (TransferAddedEvent delivered / add() returned the new transfer / loaded) and no
+    remove() called since; `gone`: removal reported (TransferRemovedEvent delivered / remove() returned) and no add()
+    called since (an add() called while the removal was in progress makes that removal's report say nothing).
+    Everything else is unspecified."""
+
     def __init__(self):
+        self.there: set = set()
+        self.gone: set = set()
+        self.removing: dict = {}       # ident -> {'tainted': bool}
+        self.adding: dict = {}         # ident -> {'rm_called': bool}   (add() called, not returned)
+
+    def add_called(self, ident):
+        if ident in self.removing:
+            self.removing[ident]['tainted'] = True
+        self.gone.discard(ident)
+        self.adding.setdefault(ident, {'rm_called': False, 'n': 0})['n'] += 1
+
+    def added_reported(self, ident):
+        self.there.add(ident)
+        self.gone.discard(ident)
+
+    def add_returned(self, ident, was_added: bool):
+        rec = self.adding.get(ident)
+        if rec is None:
+            return
+        if was_added and not rec['rm_called']:
+            self.there.add(ident)
+        rec['n'] -= 1
+        if rec['n'] <= 0:
+            del self.adding[ident]
+
+    def remove_called(self, ident):
+        self.there.discard(ident)
+        self.removing[ident] = {'tainted': False}
+        if ident in self.adding:
+            self.adding[ident]['rm_called'] = True
+
+    def removed_reported(self, ident):
+        rec = self.removing.get(ident)
+        self.there.discard(ident)
+        if rec is not None and not rec['tainted']:
+            self.gone.add(ident)
+
+    def remove_returned(self, ident, ok: bool = True):
+        rec = self.removing.pop(ident, None)
+        if ok and rec is not None and not rec['tainted']:
+            self.there.discard(ident)
+            self.gone.add(ident)
+
+    def restarted(self, idents):
+        self.__init__()
+        self.there = set(idents)
+
+    def view(self) -> dict:
+        return {'there': sorted(map(list, self.there)), 'gone': sorted(map(list, self.gone)),
+                'inflight': sorted(map(list, set(self.removing) | set(self.adding)))}
+
+
+class _Pend:
+    """An operation running as its own task, suspended at a gate inside one of the application's listeners."""
+
+    def __init__(self):
+        self.task = None
+        self.gate = None
+        self.at = None
+        self.transfer = None
+
+
+class _App:
+    """The application: listens to TransferAddedEvent / TransferRemovedEvent on the bus and to state changes of the
+    transfers it is interested in; each listener suspends at a gate when the schedule says so."""
+
+    def __init__(self, loop, ghost: _Ghost):
+        self.loop = loop
+        self.ghost = ghost
         self.added = 0
+        self.removed = 0
+        self.pend: dict = {}           # ('add' | 'rm', ident) -> _Pend
+
+    async def _gate(self, rec: _Pend, at: str):
+        rec.at = at
+        rec.gate = self.loop.create_future()
+        await rec.gate
 
     async def on_added(self, event):
         self.added += 1
+        ident = _tid(event.transfer)
+        self.ghost.added_reported(ident)
+        rec = self.pend.get(('add', ident))
+        if rec is not None and rec.transfer is event.transfer:
+            await self._gate(rec, 'added')
+
+    async def on_removed(self, event):
+        self.removed += 1
+        ident = _tid(event.transfer)
+        self.ghost.removed_reported(ident)
+        rec = self.pend.get(('rm', ident))
+        if rec is not None:
+            await self._gate(rec, 'removed')
+
+    async def on_transfer_state_changed(self, transfer, old, new):
+        rec = self.pend.get(('rm', _tid(transfer)))
+        if rec is not None and rec.transfer is transfer:
+            await self._gate(rec, 'state')
 
 
 def _apply_spec(t, s: dict, loop):
@@ -246,13 +389,15 @@ def _legacy_rewrite(tmp: str, u, p, d, a, o, kk, s):
         return key
 
 
-def _new_manager(tmp: str, users: _StubUsers, counter: _Counter):
+def _new_manager(tmp: str, users: _StubUsers, app=None):
     from aioslsk.transfer.manager import TransferManager
     from aioslsk.transfer.cache import TransferShelveCache
     from aioslsk.settings import Settings
-    from aioslsk.events import EventBus, TransferAddedEvent
+    from aioslsk.events import EventBus, TransferAddedEvent, TransferRemovedEvent
     bus = EventBus()
-    bus.register(TransferAddedEvent, counter.on_added)
+    if app is not None:
+        bus.register(TransferAddedEvent, app.on_added)
+        bus.register(TransferRemovedEvent, app.on_removed)
     mgr = TransferManager(Settings(credentials={'username': 'me', 'password': 'pw'}), bus, users,
                           types.SimpleNamespace(), types.SimpleNamespace(), cache=TransferShelveCache(tmp))
     return mgr, bus
@@ -265,10 +410,11 @@ async def _run_ops(loop, case: dict, tmp: str):
     obs: list[str] = []
     trace: list[dict] = []
     users = _StubUsers()
-    counter = _Counter()
-    keep = []                              # strong refs (EventBus holds listeners weakly)
-    mgr, bus = _new_manager(tmp, users, counter)
-    keep.append((bus, counter))
+    ghost = _Ghost()
+    keep = []                              # strong refs (EventBus holds listeners weakly; abandoned tasks)
+    app = _App(loop, ghost)
+    mgr, bus = _new_manager(tmp, users, app)
+    keep.append((bus, app))
 
     def wipe():
         for fn in os.listdir(tmp):
@@ -280,23 +426,85 @@ async def _run_ops(loop, case: dict, tmp: str):
                 return t
         return None
 
+    def abandon():
+        """the process ends: whatever is suspended is never resumed"""
+        keep.extend(app.pend.values())
+        app.pend.clear()
+
+    def finish_rm(ident, rec):
+        """outcome of a remove() task that is no longer (or not yet again) suspended"""
+        n = len(mgr.transfers)
+        if rec.task.done():
+            del app.pend[('rm', ident)]
+            if rec.transfer is not None and app in rec.transfer.state_listeners:
+                rec.transfer.state_listeners.remove(app)
+            exc = rec.task.exception() if not rec.task.cancelled() else asyncio.CancelledError()
+            if exc is not None:
+                ghost.remove_returned(ident, ok=False)
+                raise exc
+            ghost.remove_returned(ident)
+            return f'done {n} {app.removed}'
+        if rec.at == 'state':
+            return f'aborting {n} {app.removed} st={rec.transfer.state.VALUE.value}'
+        if rec.at == 'removed':
+            return f'announcing {n} {app.removed}'
+        return f'stuck {n} {app.removed}'
+
     for op in case['ops']:
         k = op[0]
         try:
             if k == 'new':
                 wipe()
-                counter = _Counter()
-                mgr, bus = _new_manager(tmp, users, counter)
-                keep.append((bus, counter))
+                abandon()
+                ghost.restarted([])
+                app = _App(loop, ghost)
+                mgr, bus = _new_manager(tmp, users, app)
+                keep.append((bus, app))
                 obs.append('ok')
                 trace.append({'op': 'new'})
-            elif k == 'add':
+            elif k in ('add', 'addc'):
                 s = op[1]
                 t = Transfer(s['u'], s['p'], TransferDirection(s['d']))
                 _apply_spec(t, s, loop)
-                await mgr.add(t)
-                obs.append(f'ok {len(mgr.transfers)} {counter.added}')
-                trace.append({'op': 'add'})
+                ident = _tid(t)
+                trace.append({'op': k})
+                ghost.add_called(ident)
+                if k == 'add' or ('add', ident) in app.pend:
+                    r = await mgr.add(t)
+                    ghost.add_returned(ident, r is t)
+                    if k == 'add':
+                        obs.append(f'ok {len(mgr.transfers)} {app.added}')
+                    else:
+                        obs.append(f'{"dup" if r is not t else "ungated"} {len(mgr.transfers)} {app.added}')
+                else:
+                    rec = _Pend()
+                    rec.transfer = t
+                    app.pend[('add', ident)] = rec
+                    rec.task = loop.create_task(mgr.add(t))
+                    await simloop.settle()
+                    if rec.task.done():
+                        del app.pend[('add', ident)]
+                        r = rec.task.result()
+                        ghost.add_returned(ident, r is t)
+                        obs.append(f'{"dup" if r is not t else "returned"} {len(mgr.transfers)} {app.added}')
+                    else:
+                        obs.append(f'{"pending" if rec.at == "added" else "stuck"} {len(mgr.transfers)} {app.added}')
+            elif k == 'addr':
+                ident = (op[1], op[2], op[3])
+                trace.append({'op': 'addr'})
+                rec = app.pend.get(('add', ident))
+                if rec is None:
+                    obs.append('no-pending')
+                else:
+                    rec.gate.set_result(None)
+                    await simloop.settle()
+                    if rec.task.done():
+                        del app.pend[('add', ident)]
+                        r = rec.task.result()
+                        ghost.add_returned(ident, r is rec.transfer)
+                        obs.append(f'ok {len(mgr.transfers)}')
+                    else:
+                        obs.append(f'stuck {len(mgr.transfers)}')
             elif k == 'mut':
                 s = op[1]
                 t = find(mgr, s['u'], s['p'], s['d'])
@@ -306,26 +514,64 @@ async def _run_ops(loop, case: dict, tmp: str):
                     _apply_spec(t, s, loop)
                     obs.append('ok')
                 trace.append({'op': 'mut'})
-            elif k == 'rm':
-                t = find(mgr, op[1], op[2], op[3])
+            elif k in ('rm', 'rmc'):
+                ident = (op[1], op[2], op[3])
+                t = find(mgr, *ident)
+                trace.append({'op': k})
                 if t is None:
                     obs.append('not-found')
-                else:
-                    await mgr.remove(t)
+                elif ('rm', ident) in app.pend:
+                    obs.append('busy')            # removals of one identity do not overlap (harness rule, see assumptions)
+                elif k == 'rm':
+                    ghost.remove_called(ident)
+                    try:
+                        await mgr.remove(t)
+                    except BaseException:
+                        ghost.remove_returned(ident, ok=False)
+                        raise
+                    ghost.remove_returned(ident)
                     obs.append(f'ok {len(mgr.transfers)}')
-                trace.append({'op': 'rm'})
+                else:
+                    rec = _Pend()
+                    rec.transfer = t
+                    app.pend[('rm', ident)] = rec
+                    t.state_listeners.append(app)
+                    ghost.remove_called(ident)
+                    rec.task = loop.create_task(mgr.remove(t))
+                    await simloop.settle()
+                    obs.append(finish_rm(ident, rec))
+            elif k == 'rms':
+                ident = (op[1], op[2], op[3])
+                trace.append({'op': 'rms'})
+                rec = app.pend.get(('rm', ident))
+                if rec is None:
+                    obs.append('no-pending')
+                else:
+                    rec.at = None
+                    rec.gate.set_result(None)
+                    await simloop.settle()
+                    obs.append(finish_rm(ident, rec))
             elif k == 'store':
-                snapshot = [_fields(t) for t in mgr.transfers]
+                how = op[1] if len(op) > 1 else 'store'
+                ev = {'op': 'store', 'how': how}
                 try:
+                    if how == 'stop':               # what client.stop() does with this service
+                        cancelled = await mgr.stop()
+                        await asyncio.gather(*cancelled, return_exceptions=True)
+                    ev['snapshot'] = [_fields(t) for t in mgr.transfers]
+                    ev.update(ghost.view())
                     await mgr.store_data()
                 except Exception as e:
                     obs.append(f'EXC store {type(e).__name__}')
-                    trace.append({'op': 'store', 'snapshot': snapshot, 'error': f'{type(e).__name__}: {e}'[:200]})
+                    ev.setdefault('snapshot', [])
+                    ev['error'] = f'{type(e).__name__}: {e}'[:200]
+                    trace.append(ev)
                     continue
                 with shelve.open(os.path.join(tmp, 'transfers'), flag='c') as sh:
                     keys = sorted(x.decode() if isinstance(x, bytes) else x for x in sh.dict.keys())
-                obs.append('keys ' + ','.join(keys))
-                trace.append({'op': 'store', 'snapshot': snapshot})
+                obs.append('keys ' + ','.join(keys) + ' there=' + ';'.join(_sid(tuple(i)) for i in ev['there']) +
+                           ' gone=' + ';'.join(_sid(tuple(i)) for i in ev['gone']))
+                trace.append(ev)
             elif k == 'legacy':
                 _, u, p, d, a, o, kk, s = op
                 found = None
@@ -340,12 +586,14 @@ async def _run_ops(loop, case: dict, tmp: str):
                     obs.append('ok')
                     trace.append({'op': 'legacy', 'result': 'ok', 'db_after': _raw_db(tmp)})
             elif k == 'restart':
-                counter = _Counter()
-                mgr, bus = _new_manager(tmp, users, counter)
-                keep.append((bus, counter))
+                abandon()
+                app = _App(loop, ghost)
+                mgr, bus = _new_manager(tmp, users, app)
+                keep.append((bus, app))
                 try:
                     await mgr.load_data()
                 except Exception as e:
+                    ghost.restarted([])
                     if 'no state class' in str(e):
                         obs.append('error no-state-class')
                     else:
@@ -354,9 +602,10 @@ async def _run_ops(loop, case: dict, tmp: str):
                                   'loaded_before_error': len(mgr.transfers)})
                     # the model's manager is empty after a failed load; make sure the real one is too
                     continue
+                ghost.restarted([_tid(t) for t in mgr.transfers])
                 loaded = [_fields(t, mgr) for t in mgr.transfers]
-                obs.append(f'loaded {len(mgr.transfers)} {counter.added} ' + '|'.join(_show(f) for f in loaded))
-                trace.append({'op': 'restart', 'loaded': loaded, 'added_events': counter.added,
+                obs.append(f'loaded {len(mgr.transfers)} {app.added} ' + '|'.join(_show(f) for f in loaded))
+                trace.append({'op': 'restart', 'loaded': loaded, 'added_events': app.added,
                               'cycle_requested': bool(mgr._management_flags & _RequestFlag.TRANSFER_CHANGE)})
             elif k == 'sched':
                 users.offline = set(op[1])
@@ -373,6 +622,16 @@ async def _run_ops(loop, case: dict, tmp: str):
         except Exception as e:       # the real code raised where the model has no error: an observation
             obs.append(f'EXC {k} {type(e).__name__}')
             trace.append({'op': k, 'error': f'{type(e).__name__}: {e}'[:200]})
+
+    # whatever is still suspended in the live manager resumes (a suspended abort holds the transfer's state lock)
+    for _ in range(8):
+        recs = [r for r in app.pend.values() if r.gate is not None and not r.gate.done()]
+        if not recs:
+            break
+        for r in recs:
+            r.gate.set_result(None)
+        await simloop.settle()
+    keep.extend(app.pend.values())
 
     # monitor-only: does a later state change of every transfer reach the manager?
     poke = []
@@ -393,10 +652,253 @@ async def _run_ops(loop, case: dict, tmp: str):
     return obs, trace
 
 
+# --------------------------------------------------------------------------------------------
+# sweeps (monitor only): a write + the end of the process at every instant of a running schedule
+# --------------------------------------------------------------------------------------------
+
+TRANSITIONS = ['queue', 'pause', 'abort', 'fail', 'complete', 'incomplete', 'initialize', 'start_transferring']
+LISTENER_MODES = ['none', 'none', 'write', 'slow', 'write+slow', 'write+slow+write']
+
+
+async def _run_sweep(loop, case: dict, root: str):
+    from aioslsk.transfer.model import Transfer, TransferDirection
+    from aioslsk.exceptions import TransferNotFoundError
+    data = os.path.join(root, 'data')
+    os.mkdir(data)
+    users = _StubUsers()
+    ghost = _Ghost()
+    probes: list[dict] = []
+    errors: list[dict] = []
+    keep: list = []
+
+    if case.get('exec_defer'):
+        # a thread pool answers later, not inline: `await asyncos.path.exists(..)` really suspends
+        def deferred(executor, func, *args):
+            fut = loop.create_future()
+
+            def done():
+                if fut.cancelled():
+                    return
+                try:
+                    fut.set_result(func(*args))
+                except BaseException as e:  # noqa
+                    fut.set_exception(e)
+            loop.call_soon(done)
+            return fut
+        loop.run_in_executor = deferred
+
+    def probe(label: str, told=None):
+        """write_cache() as the application / a periodic writer would call it right now, and the crash after it"""
+        ev = {'op': 'probe', 'label': label, 'snapshot': [_fields(t) for t in mgr.transfers]}
+        ev.update(ghost.view())
+        if told is not None:
+            ev['told'] = told
+        try:
+            mgr.write_cache()
+        except Exception as e:
+            ev.update(phase='write', error=f'{type(e).__name__}: {e}'[:200])
+            probes.append(ev)
+            return
+        ev['dir'] = os.path.join(root, f'probe-{len(probes)}')
+        shutil.copytree(data, ev['dir'])
+        probes.append(ev)
+
+    class SweepApp:
+        async def _act(self, kind: str, label: str, told=None):
+            mode = case['listeners'].get(kind, 'none').split('+')
+            if mode[0] == 'write':
+                probe(f'{label}: on entry', told)
+            if 'slow' in mode:
+                for _ in range(case.get('slow', 2)):
+                    await asyncio.sleep(0)
+                if mode[-1] == 'write' and len(mode) == 3:
+                    probe(f'{label}: after its suspension')
+
+        async def on_added(self, event):
+            ident = _tid(event.transfer)
+            ghost.added_reported(ident)
+            await self._act('added', f'TransferAddedEvent listener {ident!r}')
+
+        async def on_removed(self, event):
+            ident = _tid(event.transfer)
+            ghost.removed_reported(ident)
+            await self._act('removed', f'TransferRemovedEvent listener {ident!r}')
+
+        async def on_transfer_state_changed(self, transfer, old, new):
+            ident = _tid(transfer)
+            await self._act('state', f'state listener {ident!r} {old.value}->{new.value}', told=[list(ident), new.value])
+
+    app = SweepApp()
+    mgr, bus = _new_manager(data, users, app)
+    keep.append((bus, app))
+
+    async def dying(n: int):
+        """a transfer task that needs n more loop iterations to end once it has been cancelled"""
+        try:
+            await loop.create_future()
+        except asyncio.CancelledError:
+            for _ in range(n):
+                await asyncio.sleep(0)
+            raise
+
+    def build(sp: dict):
+        t = Transfer(sp['u'], sp['p'], TransferDirection(sp['d']))
+        _apply_spec(t, {**sp, 'tk': 0}, loop)
+        if sp.get('tk', 0) >= 1:
+            t._transfer_task = loop.create_task(dying(sp.get('die', 1)))
+        if sp.get('tk', 0) >= 2:
+            t._remotely_queue_task = loop.create_task(dying(sp.get('die', 1) + 1))
+        t.state_listeners.append(app)
+        return t
+
+    async def do_add(sp: dict):
+        t = build(sp)
+        ident = _tid(t)
+        ghost.add_called(ident)
+        r = await mgr.add(t)
+        ghost.add_returned(ident, r is t)
+
+    # set-up: transfers added one after the other (listeners already active), then a quiescent write
+    for sp in case['setup']:
+        await do_add(sp)
+    await asyncio.sleep(0)                # lets the tasks of the transfers start
+    probe('set-up done')
+
+    def find(ident):
+        for t in mgr.transfers:
+            if _tid(t) == tuple(ident):
+                return t
+        return None
+
+    async def act(a: dict):
+        for _ in range(a.get('delay', 0)):
+            await asyncio.sleep(0)
+        try:
+            if a['do'] == 'add':
+                await do_add(a['spec'])
+            elif a['do'] == 'rm':
+                t = find(a['id'])
+                ident = tuple(a['id'])
+                if t is None or ident in ghost.removing:
+                    return
+                ghost.remove_called(ident)
+                try:
+                    await mgr.remove(t)
+                except BaseException:
+                    ghost.remove_returned(ident, ok=False)
+                    raise
+                ghost.remove_returned(ident)
+            elif a['do'] == 'tr':
+                t = find(a['id'])
+                if t is not None:
+                    await getattr(t.state, a['method'])()
+        except TransferNotFoundError:
+            pass
+        except Exception as e:
+            errors.append({'op': a['do'], 'error': f'{type(e).__name__}: {e}'[:200]})
+
+    mask = case.get('ticks', 'all')
+
+    async def ticker(tasks):
+        """the periodic writer: fires at every loop iteration (or at the chosen ones) while the schedule runs"""
+        i = 0
+        while not all(t.done() for t in tasks):
+            if i >= 80:
+                errors.append({'op': 'sweep', 'error': 'schedule did not finish within 80 loop iterations'})
+                break
+            if mask == 'all' or i in mask:
+                probe(f'loop iteration {i}')
+            await asyncio.sleep(0)
+            i += 1
+
+    if case.get('ticker_first'):
+        tasks: list = []
+        tk = loop.create_task(ticker(tasks))
+        tasks.extend(loop.create_task(act(a)) for a in case['block'])
+    else:
+        tasks = [loop.create_task(act(a)) for a in case['block']]
+        tk = loop.create_task(ticker(tasks))
+    await tk
+    await asyncio.gather(*tasks, return_exceptions=True)
+    await simloop.settle()
+    probe('schedule finished')
+    if case.get('stop'):
+        cancelled = await mgr.stop()
+        await asyncio.gather(*cancelled, return_exceptions=True)
+        ev = {'op': 'probe', 'label': 'stop() + store_data()', 'snapshot': [_fields(t) for t in mgr.transfers]}
+        ev.update(ghost.view())
+        await mgr.store_data()
+        ev['dir'] = os.path.join(root, f'probe-{len(probes)}')
+        shutil.copytree(data, ev['dir'])
+        probes.append(ev)
+    for t in list(mgr.transfers):
+        for task in t.cancel_tasks():
+            keep.append(task)
+
+    # every write is followed by the end of the process: a fresh manager loads the copy made at that instant
+    trace: list[dict] = [{'op': 'sweep-error', 'error': e['error'], 'what': e['op']} for e in errors]
+    for ev in probes:
+        d = ev.pop('dir', None)
+        if d is not None:
+            m2, b2 = _new_manager(d, users, None)
+            try:
+                await m2.load_data()
+                ev['loaded'] = [_fields(t, m2) for t in m2.transfers]
+            except Exception as e:
+                ev.update(phase='load', error=f'{type(e).__name__}: {e}'[:200])
+        trace.append(ev)
+    return [], trace
+
+
+def _gen_sweep(rng: random.Random) -> dict:
+    n = rng.choice([1, 2, 2, 3, 4])
+    idents: list[tuple] = []
+    while len(idents) < n:
+        i = _gen_ident(rng)
+        if i not in idents:
+            idents.append(i)
+    setup = []
+    for i in idents:
+        sp = _gen_spec(rng, i)
+        sp['die'] = rng.choice([0, 1, 2, 3])
+        setup.append(sp)
+    block = []
+    busy_rm: set = set()
+    for _ in range(rng.choice([1, 1, 2, 2, 3])):
+        r = rng.random()
+        if r < 0.5:
+            cands = [i for i in idents if i not in busy_rm]
+            if not cands:
+                continue
+            i = rng.choice(cands)
+            busy_rm.add(i)
+            block.append({'do': 'rm', 'id': list(i), 'delay': rng.choice([0, 0, 1, 2])})
+        elif r < 0.75:
+            i = rng.choice(idents) if rng.random() < 0.3 else _gen_ident(rng)
+            sp = _gen_spec(rng, i)
+            sp['die'] = rng.choice([0, 1, 2])
+            block.append({'do': 'add', 'spec': sp, 'delay': rng.choice([0, 0, 1, 3])})
+        else:
+            block.append({'do': 'tr', 'id': list(rng.choice(idents)), 'method': rng.choice(TRANSITIONS),
+                          'delay': rng.choice([0, 0, 1, 2])})
+    if not block:
+        block.append({'do': 'rm', 'id': list(idents[0]), 'delay': 0})
+    ticks = rng.choice(['all', 'all', 'none', 'some'])
+    return {'kind': 'sweep', 'setup': setup, 'block': block,
+            'listeners': {'added': rng.choice(LISTENER_MODES), 'removed': rng.choice(LISTENER_MODES[1:]),
+                          'state': rng.choice(LISTENER_MODES)},
+            'slow': rng.choice([1, 2, 3]),
+            'ticks': 'all' if ticks == 'all' else [] if ticks == 'none' else sorted(rng.sample(range(12), 3)),
+            'ticker_first': rng.random() < 0.5, 'exec_defer': rng.random() < 0.5, 'stop': rng.random() < 0.3}
+
+
 def _run_impl(case: dict):
     tmp = tempfile.mkdtemp(prefix='c17-', dir='/dev/shm' if os.path.isdir('/dev/shm') else None)
     try:
-        (obs, trace), _loop = simloop.run(_run_ops, case, tmp, wall_timeout=120.0)
+        if case.get('kind') == 'sweep':
+            (obs, trace), _loop = simloop.run(_run_sweep, case, tmp, wall_timeout=120.0)
+        else:
+            (obs, trace), _loop = simloop.run(_run_ops, case, tmp, wall_timeout=120.0)
         return obs, trace
     finally:
         shutil.rmtree(tmp, ignore_errors=True)
@@ -425,6 +927,78 @@ def _id(f) -> tuple:
     return (f['u'], f['p'], f['d'])
 
 
+def _check_restart(flag, baseline: list, ghost: Optional[dict], loaded: list, where: str = 'a restart',
+                   told: Optional[list] = None):
+    """The statement at one restart. `baseline`: attributes of the public list at the instant of the last write (or the
+    raw records after an environment rewrite); `ghost`: what had been reported to the user at that instant (None after
+    an environment rewrite); `loaded`: what the fresh manager holds."""
+    want, got = Counter(_id(f) for f in baseline), Counter(_id(f) for f in loaded)
+    if any(c > 1 for c in want.values()):
+        return                 # the cache itself held one identity twice (not generated)
+    there = {tuple(i) for i in ghost['there']} if ghost else set()
+    gone = {tuple(i) for i in ghost['gone']} if ghost else set()
+    inflight = {tuple(i) for i in ghost['inflight']} if ghost else set()
+    for ident in sorted(set(want) | set(got) | there | gone, key=repr):
+        if got[ident] > 1:
+            flag('C17-transfer-duplicated', f'transfer {ident!r} is present {got[ident]} times after {where}',
+                 observed=got[ident], required=1)
+        if ident in gone:
+            if got[ident]:
+                flag('C17-removed-transfer-back', f'the removal of {ident!r} had been reported (TransferRemovedEvent '
+                     f'delivered / remove() returned) when the cache was written, yet it is loaded after {where}',
+                     observed=sorted(map(repr, got)), required=f'{ident!r} absent')
+        elif ident in there:
+            if not got[ident]:
+                flag('C17-transfer-lost', f'the addition of {ident!r} had been reported (TransferAddedEvent delivered / '
+                     f'add() returned / loaded) when the cache was written, yet it is not there after {where}',
+                     observed=sorted(map(repr, got)), required=f'{ident!r} present')
+        elif ident in inflight:
+            continue           # an add() / remove() of this identity was in progress and had reported nothing yet
+        elif want[ident] and not got[ident]:
+            flag('C17-transfer-lost', f'transfer {ident!r} was written to the cache but is not there after '
+                 f'{where} ({len(baseline)} stored, {len(loaded)} loaded)',
+                 observed=sorted(map(repr, got)), required=sorted(map(repr, want)))
+        elif got[ident] and not want[ident]:
+            flag('C17-removed-transfer-back', f'transfer {ident!r} is not in the stored list but was loaded',
+                 observed=sorted(map(repr, got)), required=sorted(map(repr, want)))
+    by_id = {_id(f): f for f in baseline}
+    for f in loaded:
+        b = by_id.get(_id(f))
+        if b is None or got[_id(f)] != 1:
+            continue
+        for fld in ('lp', 'fs', 'bt', 'fr'):
+            if f[fld] != b[fld]:
+                flag('C17-field-changed', f'{fld} of {_id(f)!r} changed over {where}',
+                     observed=f[fld], required=b[fld])
+        bar = None if b['ar'] == '!' else b['ar']
+        ok_ar = f['ar'] == bar or (bar is None and b['st'] == ST_ABORTED and f['ar'] == 'Requested')
+        if not ok_ar:
+            flag('C17-field-changed', f'abort_reason of {_id(f)!r} changed over {where}',
+                 observed=f['ar'], required=bar)
+        bst = b['st']
+        if told is not None and tuple(told[0]) == _id(f) and f['st'] != _expected_state(told[1], b['fs'], b['bt']):
+            # the cache was written by a state listener that had just been told the new state
+            flag('C17-state-not-as-reported', f'{_id(f)!r}: the state listener that wrote the cache had been told state '
+                 f'{told[1]} (the transfer showed {bst}); loaded in state {f["st"]}', observed=f['st'],
+                 required=_expected_state(told[1], b['fs'], b['bt']))
+        if f['st'] in IN_PROGRESS:
+            flag('C17-left-in-progress', f'{_id(f)!r} is in state {f["st"]} after load_data() '
+                 f'(persisted state {bst})', observed=f['st'], required=_expected_state(bst, b['fs'], b['bt']))
+        elif f['st'] != _expected_state(bst, b['fs'], b['bt']):
+            flag('C17-wrong-repair', f'{_id(f)!r}: persisted state {bst} (filesize {b["fs"]}, '
+                 f'bytes {b["bt"]}) became {f["st"]}', observed=f['st'],
+                 required=_expected_state(bst, b['fs'], b['bt']))
+        if f['rq'] is not False:
+            flag('C17-remote-queue-mark-kept', f'{_id(f)!r}: remotely_queued = {f["rq"]!r} after load',
+                 observed=f['rq'], required=False)
+        if f['ls'] != '1/1':
+            flag('C17-not-listening', f'{_id(f)!r}: state_listeners (len/manager) = {f["ls"]} after load',
+                 observed=f['ls'], required='1/1')
+        if f['tk'] != 0:
+            flag('C17-task-handle-loaded', f'{_id(f)!r} holds {f["tk"]} task handle(s) after load',
+                 observed=f['tk'], required=0)
+
+
 def _monitor(case: dict, trace: list) -> list[Violation]:
     vs: list[Violation] = []
 
@@ -432,23 +1006,26 @@ def _monitor(case: dict, trace: list) -> list[Violation]:
         vs.append(Violation(sig, what, case, observed=observed, required=required))
 
     baseline: list[dict] = []      # what the cache is supposed to hold (persisted attribute values)
+    ghost: Optional[dict] = None   # what had been reported when the cache was last written
     fresh_restart = False          # a sched op directly after a successful restart
     for ev in trace:
         k = ev['op']
-        if 'error' in ev and k not in ('restart',):
+        if 'error' in ev and k not in ('restart', 'probe'):
             flag('C17-impl-raised', f'{k} raised {ev["error"]}', observed=ev['error'])
             if k == 'store':
                 fresh_restart = False
             continue
         if k == 'new':
-            baseline, fresh_restart = [], False
-        elif k in ('add', 'mut', 'rm'):
+            baseline, ghost, fresh_restart = [], None, False
+        elif k in ('add', 'addc', 'addr', 'mut', 'rm', 'rmc', 'rms'):
             fresh_restart = False
         elif k == 'store':
             baseline = [dict(f) for f in ev['snapshot']]
+            ghost = {x: ev[x] for x in ('there', 'gone', 'inflight')} if 'there' in ev else None
         elif k == 'legacy':
             if ev['result'] == 'ok':
                 baseline = [dict(f) for f in ev['db_after']]
+                ghost = None
         elif k == 'restart':
             fresh_restart = False
             corrupt = any(f['st'] == -1 for f in baseline)
@@ -459,53 +1036,19 @@ def _monitor(case: dict, trace: list) -> list[Violation]:
                 continue
             if corrupt:
                 continue           # nothing is promised for a record without a state class
-            loaded = ev['loaded']
-            want, got = Counter(_id(f) for f in baseline), Counter(_id(f) for f in loaded)
-            if any(c > 1 for c in want.values()):
-                continue           # the cache itself held one identity twice (not generated)
-            for ident in want:
-                if got[ident] == 0:
-                    flag('C17-transfer-lost', f'transfer {ident!r} was written to the cache but is not there after '
-                         f'a restart ({len(baseline)} stored, {len(loaded)} loaded)',
-                         observed=sorted(map(repr, got)), required=sorted(map(repr, want)))
-            for ident, c in got.items():
-                if c > 1:
-                    flag('C17-transfer-duplicated', f'transfer {ident!r} is present {c} times after a restart',
-                         observed=c, required=1)
-                if want[ident] == 0:
-                    flag('C17-removed-transfer-back', f'transfer {ident!r} is not in the stored list but was loaded',
-                         observed=sorted(map(repr, got)), required=sorted(map(repr, want)))
-            by_id = {_id(f): f for f in baseline}
-            for f in loaded:
-                b = by_id.get(_id(f))
-                if b is None or got[_id(f)] != 1:
-                    continue
-                for fld in ('lp', 'fs', 'bt', 'fr'):
-                    if f[fld] != b[fld]:
-                        flag('C17-field-changed', f'{fld} of {_id(f)!r} changed over a restart',
-                             observed=f[fld], required=b[fld])
-                bar = None if b['ar'] == '!' else b['ar']
-                ok_ar = f['ar'] == bar or (bar is None and b['st'] == ST_ABORTED and f['ar'] == 'Requested')
-                if not ok_ar:
-                    flag('C17-field-changed', f'abort_reason of {_id(f)!r} changed over a restart',
-                         observed=f['ar'], required=bar)
-                if f['st'] in IN_PROGRESS:
-                    flag('C17-left-in-progress', f'{_id(f)!r} is in state {f["st"]} after load_data() '
-                         f'(persisted state {b["st"]})', observed=f['st'], required=_expected_state(b['st'], b['fs'], b['bt']))
-                elif f['st'] != _expected_state(b['st'], b['fs'], b['bt']):
-                    flag('C17-wrong-repair', f'{_id(f)!r}: persisted state {b["st"]} (filesize {b["fs"]}, '
-                         f'bytes {b["bt"]}) became {f["st"]}', observed=f['st'],
-                         required=_expected_state(b['st'], b['fs'], b['bt']))
-                if f['rq'] is not False:
-                    flag('C17-remote-queue-mark-kept', f'{_id(f)!r}: remotely_queued = {f["rq"]!r} after load',
-                         observed=f['rq'], required=False)
-                if f['ls'] != '1/1':
-                    flag('C17-not-listening', f'{_id(f)!r}: state_listeners (len/manager) = {f["ls"]} after load',
-                         observed=f['ls'], required='1/1')
-                if f['tk'] != 0:
-                    flag('C17-task-handle-loaded', f'{_id(f)!r} holds {f["tk"]} task handle(s) after load',
-                         observed=f['tk'], required=0)
+            _check_restart(flag, baseline, ghost, ev['loaded'])
+            # the loaded list is what the next process starts from
+            ghost = None
             fresh_restart = True
+        elif k == 'probe':
+            # a write at some instant of a running schedule + the end of the process right after it
+            where = f'a restart from the cache written at [{ev["label"]}]'
+            if 'error' in ev:
+                flag('C17-impl-raised' if ev.get('phase') == 'write' else 'C17-load-raised',
+                     f'{ev.get("phase")} at [{ev["label"]}] raised {ev["error"]}', observed=ev['error'])
+                continue
+            _check_restart(flag, ev['snapshot'], {x: ev[x] for x in ('there', 'gone', 'inflight')}, ev['loaded'],
+                           where=where, told=ev.get('told'))
         elif k == 'sched':
             if not fresh_restart:
                 continue
@@ -550,7 +1093,12 @@ FAMILIES = [
     [('x', '1:yz'), ('x1:y', 'z')],
 ]
 REASONS_F = [None, None, 'Cancelled', 'File not shared.', 'Queued', '']
-REASONS_A = [None, None, 'Requested', 'Blocked', 'File not shared']
+REASONS_A = [None, None, 'Requested', 'Blocked', 'File not shared', '']
+LOCAL_PATHS = [None, '/nonexistent-c17/dl/a.mp3', '/nonexistent-c17/é (1).mp3', '']
+# every persisted attribute has its falsy-but-legal value ('' / 0 / 0.0 / False) among the generated ones: a load that
+# takes "falsy" for "missing" changes it (checked by _boundary_values_complete at import)
+BOUNDARY = {'u': '', 'p': '', 'lp': '', 'fs': 0, 'bt': 0, 'fr': '', 'ar': '', 'rq': False, 'piq': 0, 'qa': 0, 'lqa': 0,
+            'ura': 0, 'lura': 0, 'stt': 0, 'ct': 0}
 
 
 def _gen_ident(rng: random.Random) -> tuple:
@@ -577,20 +1125,118 @@ def _gen_spec(rng: random.Random, ident: tuple) -> dict:
     has_time = rng.random() < 0.5
     return {
         'u': u, 'p': p, 'd': d, 'st': st,
-        'lp': rng.choice([None, '/nonexistent-c17/dl/a.mp3', '/nonexistent-c17/é (1).mp3']),
+        'lp': rng.choice(LOCAL_PATHS),
         'fs': fs, 'bt': bt, 'fr': rng.choice(REASONS_F), 'ar': rng.choice(REASONS_A),
         'rq': rng.random() < 0.4, 'piq': rng.choice([None, None, 0, 3, 250]),
         'qa': rng.choice([0, 0, 1, 9]), 'lqa': rng.choice([0, 0, 1234]),
         'ura': rng.choice([0, 0, 2]), 'lura': rng.choice([0, 0, 99]),
-        'stt': rng.choice([1, 1700000000]) if has_time else None,
-        'ct': rng.choice([None, 1700000100]) if has_time else None,
+        'stt': rng.choice([0, 1, 1700000000]) if has_time else None,
+        'ct': rng.choice([None, 0, 1700000100]) if has_time else None,
         'off': rng.random() < 0.2, 'tk': rng.choice([0, 0, 0, 1, 2]),
     }
 
 
+def _boundary_values_complete(n: int = 4000) -> list[str]:
+    """Persisted fields whose falsy legal value the generator does not produce (must be empty)."""
+    rng = random.Random('C17-boundary')
+    seen: dict = {k: False for k in BOUNDARY}
+    for _ in range(n):
+        sp = _gen_spec(rng, _gen_ident(rng))
+        for k, v in BOUNDARY.items():
+            if sp[k] is not None and sp[k] == v and type(sp[k]) is type(v):
+                seen[k] = True
+    return [k for k, ok in seen.items() if not ok]
+
+
+def _gen_phased(rng: random.Random) -> dict:
+    """add() / remove() suspended in their listeners; attribute changes, further operations, cache writes and the end
+    of the process while they are suspended."""
+    ops: list = []
+    listed: list[tuple] = []          # guess of the identities in the manager (only used to pick targets)
+    pend_add: list[tuple] = []
+    pend_rm: dict = {}                # ident -> resumptions so far
+    for _ in range(rng.choice([1, 2, 2, 3, 4, 5])):
+        ident = _gen_ident(rng)
+        ops.append(['add', _gen_spec(rng, ident)])
+        if ident not in listed:
+            listed.append(ident)
+    if rng.random() < 0.8:
+        ops.append(['store'])
+
+    def crash():
+        ops.append(['restart'])
+        pend_add.clear()
+        pend_rm.clear()
+        listed[:] = _idents_after(ops)
+        if rng.random() < 0.5:
+            ops.append(['sched', [u for u in sorted({i[0] for i in listed}) if rng.random() < 0.25]])
+
+    for _ in range(rng.randint(2, 9)):
+        r = rng.random()
+        did_phase = False
+        if r < 0.30:
+            cands = [i for i in listed if i not in pend_rm] or listed
+            if cands:
+                ident = rng.choice(cands)
+                ops.append(['rmc', *ident])
+                pend_rm.setdefault(ident, 0)
+                did_phase = True
+        elif r < 0.52 and pend_rm:
+            ident = rng.choice(list(pend_rm))
+            ops.append(['rms', *ident])
+            pend_rm[ident] += 1
+            if ident in listed:
+                listed.remove(ident)
+            if pend_rm[ident] >= 2 or rng.random() < 0.15:
+                if pend_rm[ident] >= 2:
+                    del pend_rm[ident]
+            did_phase = True
+        elif r < 0.68:
+            q = rng.random()
+            if q < 0.2 and pend_rm:
+                ident = rng.choice(list(pend_rm))       # the identity whose removal is in progress
+            elif q < 0.3 and listed:
+                ident = rng.choice(listed)              # already there
+            else:
+                ident = _gen_ident(rng)
+            ops.append(['addc', _gen_spec(rng, ident)])
+            if ident not in listed:
+                listed.append(ident)
+                pend_add.append(ident)
+            did_phase = True
+        elif r < 0.78 and pend_add:
+            ident = pend_add.pop(rng.randrange(len(pend_add)))
+            ops.append(['addr', *ident])
+            did_phase = True
+        elif r < 0.86 and listed:
+            ops.append(['mut', _gen_spec(rng, rng.choice(listed))])
+        elif r < 0.91 and listed:
+            ident = rng.choice(listed)
+            ops.append(['rm', *ident])
+            if ident not in pend_rm:
+                listed.remove(ident)
+        elif r < 0.95:
+            ident = _gen_ident(rng)
+            ops.append(['add', _gen_spec(rng, ident)])
+            if ident not in listed:
+                listed.append(ident)
+        else:
+            ops.append(rng.choice([['rms', 'nobody', 'nothing', 1], ['addr', 'nobody', 'nothing', 0],
+                                   ['rmc', 'nobody', 'nothing', 1]]))
+        if did_phase and rng.random() < 0.65:
+            ops.append(['store', 'stop'] if rng.random() < 0.2 else ['store'])
+            if rng.random() < 0.3:
+                crash()
+    ops.append(['store', 'stop'] if rng.random() < 0.3 else ['store'])
+    ops += [['restart'], ['sched', [u for u in sorted({i[0] for i in listed}) if rng.random() < 0.25]]]
+    return {'kind': 'phased', 'ops': ops}
+
+
 def _gen_case(rng: random.Random) -> dict:
     kind = rng.choice(['roundtrip', 'roundtrip', 'sequence', 'sequence', 'sequence', 'legacy', 'legacy',
-                       'migration', 'migration', 'malformed'])
+                       'migration', 'migration', 'malformed', 'phased', 'phased', 'phased', 'phased'])
+    if kind == 'phased':
+        return _gen_phased(rng)
     n = rng.choice([0, 1, 2, 3, 4, 5, 6, 7, 8, 8])
     ops: list = []
     idents: list[tuple] = []          # identities currently in the manager, in list order
@@ -682,11 +1328,11 @@ def _idents_after(ops: list) -> list[tuple]:
         k = op[0]
         if k == 'new':
             mgr, db, corrupt = [], [], False
-        elif k == 'add':
+        elif k in ('add', 'addc'):
             ident = (op[1]['u'], op[1]['p'], op[1]['d'])
             if ident not in mgr:
                 mgr.append(ident)
-        elif k == 'rm':
+        elif k in ('rm', 'rms'):
             if (op[1], op[2], op[3]) in mgr:
                 mgr.remove((op[1], op[2], op[3]))
         elif k == 'store':
@@ -725,10 +1371,15 @@ class C17(Property):
     props_module = 'AioslskVerif.Props.C17'
     driver_module = 'AioslskVerif.Driver.C17'
     rule = ('op sequences (add / mut / rm / store / legacy-rewrite / restart / sched) over lists of 0..8 transfers, every '
-            'state x direction, field values from boundary sets, names drawn so that plain concatenations collide, '
-            'derived from VERIF_SEED; a case is non-trivial when a restart loaded at least one transfer and the cache '
-            'held an in-progress state, a pair of colliding concatenations, or a legacy/old-key record; distinct = '
-            'distinct canonical op list')
+            'state x direction, field values from boundary sets (every persisted field has its falsy legal value: 0, '
+            "0.0, '', False), names drawn so that plain concatenations collide; phased sequences (addc / addr / rmc / "
+            'rms: add() and remove() suspended in their listeners, with mut / further operations / store / stop+store / '
+            'restart in between); sweeps (monitor only): concurrent add / remove / real state transitions with writing '
+            'and suspending listeners, slowly dying tasks, a deferred executor, a write + crash at every loop iteration; '
+            'all derived from VERIF_SEED. A case is non-trivial when a restart loaded at least one transfer and the '
+            'cache held an in-progress state, a pair of colliding concatenations, a legacy/old-key record, or was '
+            'written while an operation was suspended; a sweep when a probe taken while an operation was in flight '
+            'loaded at least one transfer; distinct = distinct canonical case')
     assumptions = [
         'sha256 is injective on the hashed strings that occur (theorems take `Function.Injective H` as a hypothesis; '
         'the correspondence compares sha256(model key bytes) with the real database keys)',
@@ -737,11 +1388,19 @@ class C17(Property):
         'transfer identities (username, remote_path, direction) in the manager are pairwise distinct (add() enforces it) '
         'and do not change after creation',
         'times and attempt stamps are whole numbers in the generated cases (floats are persisted verbatim by pickle)',
+        'two remove() calls for the same identity do not overlap (on HEAD the second one ends in ValueError from '
+        'list.remove and a second TransferRemovedEvent; not part of this property); every other overlap is generated',
+        'the ghost sets say nothing about an identity while an add()/remove() of it is in progress and has reported '
+        'nothing yet, nor after an add() called during a removal in progress (either outcome is accepted there)',
     ]
     modelled = ('transfer/cache.py read/write (with fixes/C17-cache-key-ambiguous.patch), Transfer.__getstate__/'
                 '__setstate__/__eq__/is_transfered, TransferState.init_from_state, TransferManager.read_cache/add and the '
-                'selection part of _get_queued_transfers; state sets, enum values, field lists regenerated from the '
-                'source; exercised only: pickle, shelve/dbm.dumb, EventBus, TransferManager.remove (abort path), '
+                'selection part of _get_queued_transfers; TransferManager.add/remove split at their suspension points '
+                '(TransferAddedEvent delivery, state listeners of the abort transition, TransferRemovedEvent delivery) '
+                'with write_cache() and the end of the process at each of them, the abort() of the state classes '
+                '(generated table), ghost sets of what was reported; state sets, enum values, field lists regenerated '
+                'from the source; exercised only: pickle, shelve/dbm.dumb, EventBus, TransferManager.stop, real state '
+                'transitions, cancellation of transfer tasks, _remove_local_file through the executor (sweeps), '
                 '_prioritize_uploads ordering')
 
     def regenerate(self):
@@ -752,7 +1411,14 @@ class C17(Property):
         rng = random.Random(f'C17-{seed}')
         n = (1500 if tier == "quick" else 20000) * widen
         cases = [WITNESS_COLLISION, WITNESS_MIGRATION] + [_gen_case(rng) for _ in range(n)]
-        impl = common.parallel_map(_eval_case, cases, chunksize=4)
+        rng_s = random.Random(f'C17-sweep-{seed}')
+        sweeps = [_gen_sweep(rng_s) for _ in range((300 if tier == "quick" else 4000) * widen)]
+        missing = _boundary_values_complete()
+        if missing:
+            res.disagreements.append(Disagreement({'kind': 'generator-self-check'}, missing, [],
+                                                  'the generator no longer produces the falsy legal value of these fields'))
+        impl_all = common.parallel_map(_eval_case, cases + sweeps, chunksize=4)
+        impl, impl_s = impl_all[:len(cases)], impl_all[len(cases):]
         model = None
         if model_ok:
             lines, spans = [], []
@@ -770,9 +1436,17 @@ class C17(Property):
             res.count('kind:' + c['kind'])
             res.count('ops', len(c['ops']))
             for op in c['ops']:
-                res.count('op:' + op[0])
+                res.count('op:' + op[0] + (':stop' if op[0] == 'store' and len(op) > 1 else ''))
                 if op[0] == 'legacy':
                     res.count(f'legacy:abort-absent={int(op[4])},offset={int(op[5])},old-key={int(op[6])},unset={int(op[7])}')
+                if op[0] in ('add', 'addc', 'mut'):
+                    for k, v in BOUNDARY.items():
+                        if op[1][k] is not None and op[1][k] == v and type(op[1][k]) is type(v):
+                            res.count(f'boundary:{k}={v!r}')
+            for o in io_:
+                w = o.split(' ', 1)[0]
+                if w in ('pending', 'dup', 'aborting', 'announcing', 'done', 'busy', 'no-pending', 'stuck'):
+                    res.count('phase:' + w)
             nontrivial = False
             baseline: list = []
             special = False
@@ -780,7 +1454,11 @@ class C17(Property):
                 if ev['op'] == 'new':
                     baseline, special = [], False
                 elif ev['op'] == 'store' and 'error' not in ev:
-                    baseline, special = ev['snapshot'], False
+                    baseline, special = ev['snapshot'], bool(ev.get('inflight'))
+                    if ev.get('inflight'):
+                        res.count('store:while-suspended')
+                        if ev.get('gone'):
+                            res.count('store:while-suspended,removal-reported')
                 elif ev['op'] == 'legacy' and ev.get('result') == 'ok':
                     baseline, special = ev['db_after'], True
                 elif ev['op'] == 'restart' and 'loaded' in ev:
@@ -812,6 +1490,33 @@ class C17(Property):
             res.violations += _monitor(c, trace)
             if len(res.samples) < 3 and 3 <= len(c['ops']) <= 6 and c['kind'] not in ('witness-collision',):
                 res.samples.append({'case': c, 'impl': [x[:400] for x in io_]})
+        # sweeps: real code + monitor (no model)
+        for c, (io_, trace) in zip(sweeps, impl_s):
+            res.evaluations += 1
+            res.count('kind:sweep')
+            if io_ and io_[0].startswith('HARNESS-EXC'):
+                res.disagreements.append(Disagreement(c, io_[0], None, 'harness could not run the sweep'))
+                continue
+            for a in c['block']:
+                res.count('sweep:do=' + a['do'] + (':' + a['method'] if a['do'] == 'tr' else ''))
+            for kind, mode in c['listeners'].items():
+                res.count(f'sweep:{kind}-listener={mode}')
+            hot = 0
+            for ev in trace:
+                if ev['op'] != 'probe':
+                    continue
+                res.count('sweep:probes')
+                if ev.get('inflight'):
+                    res.count('sweep:probes-while-in-flight')
+                    if ev.get('loaded'):
+                        hot += 1
+                if ev.get('told'):
+                    res.count('sweep:probes-in-state-listener')
+                if ev.get('gone') and ev.get('inflight'):
+                    res.count('sweep:probes-removal-reported-while-in-flight')
+            if hot:
+                res.nontrivial_keys.add(common.sha(c))
+            res.violations += _monitor(c, trace)
         return res
 
     def replay(self, case):
